@@ -278,7 +278,7 @@ Proof. exact amtrelay_fixed_point_thm. Qed.
 Print Assumptions amtrelay_fixed_point.
 
 (* ... and for the normalising hand codecs.  OPT: the option classes' normalisation is idempotent
-   (false before fix 2815f69, EDE text with several trailing NULs), so the reader's output is in
+   (false before fix e554dd4, EDE text with several trailing NULs), so the reader's output is in
    normal form, encodes, and decodes to itself *)
 Theorem opt_normalisation_idempotent : forall ot d p, opt_norm ot d = Some p -> opt_norm ot p = Some p.
 Proof. exact opt_norm_idem. Qed.
